@@ -423,3 +423,11 @@ func VerifReady(db *DB, table string) bool {
 	defer t.rowStore.mx.RUnlock()
 	return t.rowStore.memStore != nil
 }
+
+// VerifDrainQueryHandlers discards every remote query handler currently
+// registered for the partition, so that a harness can decide exactly which
+// handlers the next query finds.
+func VerifDrainQueryHandlers(db *DB, partition int) {
+	for db.remoteQueryHandlerForPartition(partition) != nil {
+	}
+}
